@@ -21,6 +21,8 @@ demo_cmd = meta['demo_cmd']
 ran = {'demo_cmd': demo_cmd, 'demo_path': demo_path}
 scratch_crate = os.path.isdir(f'{dst}/pp')   # demo is a scratch crate SEED/pp (outside the workspace) instead of a test file
 def install():
+    if os.path.isdir(f'{dst}/SEED'):       # extra demo scaffolding (shim crate, scripts) the seed's author needs next to the demo
+        shutil.copytree(f'{dst}/SEED', f'{wt}/SEED', dirs_exist_ok=True)
     if scratch_crate:
         shutil.copytree(f'{dst}/pp', f'{wt}/SEED/pp', dirs_exist_ok=True); return
     os.makedirs(os.path.dirname(os.path.join(wt, demo_path)), exist_ok=True); shutil.copy(f'{dst}/demo.rs', os.path.join(wt, demo_path))
@@ -54,6 +56,8 @@ if confirmed:
                 rf = rp[0].split('replay=')[1].split()[0]
                 if os.path.exists(rf): shutil.copy(rf, f'{dst}/replay-{p}.json')
     sh('git -C /repo checkout -- . && git -C /repo clean -fdq -- crates proof_parser cli')
+    for g in ('gen.py', 'gen_ast.py', 'gen_asserts.py'):      # the translated files follow /repo: put them back to the clean tree's
+        sh(f'python3 /verif/tools/{g}')
 ran['checks'] = checks
 meta['breaks_property'] = props[0]
 meta['verified_by_us'] = ran
